@@ -16,6 +16,15 @@ CBMC_CHECKS = ['--bounds-check', '--pointer-check', '--pointer-overflow-check',
                '--signed-overflow-check', '--div-by-zero-check', '--pointer-primitive-check']
 
 
+RUN_TAG = '_'      # set by vf.check to the property under check: checks of different properties may run side by side
+
+
+def select_sections(text, prop):
+    """loop-contract text may carry /*@IF Cnn@*/ ... /*@FI@*/ sections that only belong to the check of that property
+    (a failing loop invariant cannot be attributed to one clause, so foreign conjuncts are left out instead)"""
+    return re.sub(r'/\*@IF (\w+)@\*/(.*?)/\*@FI@\*/', lambda m: m.group(2) if m.group(1) == prop else '', text, flags=re.S)
+
+
 class Undecided(Exception):
     pass
 
@@ -409,7 +418,7 @@ def run_cmd(cmd, timeout, log):
 
 def run_job(job, cpath, info, tier, defines=(), subdir=None, witness_mode=False, timeout=None):
     """returns result dict: status in {'ok','failed','undecided'}, obligations list"""
-    jdir = os.path.join(WORK, 'jobs', job.group, job.name + (subdir or ''))
+    jdir = os.path.join(WORK, 'jobs', RUN_TAG, job.group, job.name + (subdir or ''))
     shutil.rmtree(jdir, ignore_errors=True)
     os.makedirs(jdir, exist_ok=True)
     res = {'job': job.name, 'group': job.group, 'root': job.root, 'status': 'undecided', 'reason': '',
